@@ -70,7 +70,7 @@ func expectedListing(objs []liveObj, prefix string, hasDelim bool, delim byte, a
 // buildBucket creates bucket "bkt" on backend b with up to maxKeys objects
 // whose keys are free byte strings, then deletes a free subset. Returns the
 // live objects (distinct keys).
-func buildBucket(b gofakes3.Backend, maxKeys, maxKeyLen int, delim byte, hasDelim bool) []liveObj {
+func buildBucket(b gofakes3.Backend, maxKeys, maxKeyLen int, delim byte, hasDelim bool, printable bool) []liveObj {
 	if err := b.CreateBucket("bkt"); err != nil {
 		panic(err)
 	}
@@ -79,6 +79,11 @@ func buildBucket(b gofakes3.Backend, maxKeys, maxKeyLen int, delim byte, hasDeli
 	for i := 0; i < n; i++ {
 		kl := 1 + vsym.Choice("keylen", maxKeyLen)
 		key := vsym.String("key", kl)
+		if printable { // keys that survive the XML text of a native replay
+			for j := 0; j < kl; j++ {
+				vsym.Assume(key[j] >= 0x20 && key[j] < 0x7f)
+			}
+		}
 		if hasDelim { // key domain of the property: no leading/trailing delimiter
 			vsym.Assume(key[0] != delim)
 			vsym.Assume(key[kl-1] != delim)
@@ -137,11 +142,55 @@ func VH_C03b_mem() {
 			vsym.Assume(delim < 0x80)
 		}
 	}
-	live := buildBucket(b, vsym.Param("maxkeys", 2), vsym.Param("maxkeylen", 2), delim, hasDelim)
+	viaAPI := vsym.Param("viaapi", 0) == 1
+	if hasDelim && !viaAPI {
+		vsym.Assume(delim >= 0x20 && delim < 0x7f)
+	}
+	live := buildBucket(b, vsym.Param("maxkeys", 2), vsym.Param("maxkeylen", 2), delim, hasDelim, !viaAPI)
 	pl := vsym.Choice("prefixlen", vsym.Param("maxprefix", 1)+1)
 	prefix := vsym.String("prefix", pl)
 	if hasDelim && pl > 0 {
 		vsym.Assume(prefix[0] != delim)
+	}
+	if !viaAPI {
+		for j := 0; j < pl; j++ {
+			vsym.Assume(prefix[j] >= 0x20 && prefix[j] < 0x7f)
+		}
+	}
+	if viaAPI {
+		// Go Backend API: every byte value is a legal key byte
+		p := gofakes3.Prefix{Prefix: prefix, HasPrefix: pl > 0}
+		if hasDelim {
+			p.HasDelimiter, p.Delimiter = true, string([]byte{delim})
+		}
+		ol, err := b.ListBucket("bkt", &p, gofakes3.ListBucketPage{})
+		vsym.Assert(err == nil && ol != nil, "C03b/api-error")
+		if err != nil || ol == nil {
+			return
+		}
+		var v ListView
+		for _, c := range ol.Contents {
+			v.Keys = append(v.Keys, c.Key)
+			v.Sizes = append(v.Sizes, c.Size)
+			v.ETags = append(v.ETags, c.ETag)
+		}
+		for _, c := range ol.CommonPrefixes {
+			v.Prefixes = append(v.Prefixes, c.Prefix)
+		}
+		keys, sizes, etags, cps := expectedListing(live, prefix, hasDelim, delim, "")
+		vsym.Assert(sameStrings(v.Keys, keys), "C03b/contents-keys")
+		vsym.Assert(sameStrings(v.Prefixes, cps), "C03b/common-prefixes")
+		vsym.Assert(sameInt64s(v.Sizes, sizes), "C03b/sizes")
+		vsym.Assert(sameStrings(v.ETags, etags), "C03b/etags")
+		vsym.Assert(!ol.IsTruncated, "C03b/not-truncated")
+		if len(cps) > 0 {
+			vsym.Reach("C03b/common-prefix")
+		}
+		if len(keys) > 0 {
+			vsym.Reach("C03b/contents")
+		}
+		vsym.Reach("C03b/done")
+		return
 	}
 	q := url.Values{}
 	if pl > 0 {
